@@ -5,6 +5,18 @@ D = os.path.dirname(os.path.dirname(os.path.abspath(__file__)))
 
 # property -> (technique, level text, level note, design ref)
 CLAIMED = {
+ "C01": ("per-node-type agreement of printer and parser on finite things: PRINT model of each SQL() from SSA (constants, joined pieces, guards) vs. production vocabulary / required tokens / list separators from the parser's SSA and TKAI",
+         "Decides necessary conditions of the round trip for all node types: printed words are consumed by the productions, required tokens are printed, list separators agree with what the list loops consume, commas next to possibly empty lists are guarded, an operator cannot glue with the first character of its operand.",
+         "Trusted: PRINT model extraction (methods with loops are used with their constants only), VALUE/TKAI. Not decided: ordering of printed pieces, nested interactions, equality of the two trees.", "DESIGN.md §2 C01"),
+ "C02": ("information-sink analysis: fields into which the parser can store information (VALUE) vs. fields SQL() reads (PRINT); region analysis of optional-token guards; correlation of optional position flags with printed fields",
+         "Decides that every field that can carry information is read by its type's SQL(), that optional tokens skipped without a trace are documented noise words, and that optional-position flags are read or implied by a printed field.",
+         "Trusted: VALUE, PRINT. Not decided: order of printed tokens, survival of literal values (C15).", "DESIGN.md §2 C02"),
+ "C05": ("abstract evaluation of the documented pos/end expressions per allocation site over abstract positions (token start/end + TKAI token facts, InvalidPos, child Pos/End with VALUE types); parse-event ordering by CFG reachability",
+         "Decides, for all ~300 allocation sites of 264 node types: every position field assigned, pos/end chains total, pos is a token start and end a token end with offsets equal to the token length fixed by the guards on the path, sibling parse order equals declaration order.",
+         "Trusted: TKAI facts, VALUE shapes, the C19 equality between specifications and pos.go. Not decided: numeric range of positions, Bad* ranges (C10).", "DESIGN.md §2 C05"),
+ "C06": ("same abstract position evaluation as C05 plus event-order rules on the pos/end chains (first event, reverse parse order, completeness)",
+         "Decides the code-shape conditions of exact ranges: the offset added to an anchor is the length of its token, the pos anchor is the first event of the production, end-chain alternatives are in reverse parse order and nothing present is parsed after the chain's fields.",
+         "Trusted: as C05. Not decided: the run-time experiments (a)/(b) of the property themselves.", "DESIGN.md §2 C06"),
  "C10": ("sibling cross-check of the four recovery handlers on SSA (dominance, single advance per cycle, value identity of the captured triple); purity check of the strict side of every noPanic branch",
          "Decides that each handler records exactly the tokens it skips (start, last End, clones) with one advance per cycle and nothing fetched after the loop, that both lexer modes execute the same instructions on clean text, that Bad nodes do not alias the live token, and that BadNode.SQL separates tokens by both trivia fields.",
          "Trusted: go/ssa dominators, natural-loop construction. Not decided: which tokens ought to be skipped (nesting counters), the '>>' split in handleParseTypeError.", "DESIGN.md §2 C10"),
